@@ -42,10 +42,10 @@ func (i c13Ident) header() map[string]string {
 type c13Case struct {
 	Mint      c13Ident   `json:"mint"`
 	Present   c13Ident   `json:"present"`
-	Kind      string     `json:"kind"`     // cursor | call | session
-	Position  string     `json:"position"` // cursor | call | session (where the token is presented)
+	Kind      string     `json:"kind"`      // cursor | call | session
+	Position  string     `json:"position"`  // cursor | call | session (where the token is presented)
 	Transform string     `json:"transform"` // asis | realphabet | reversion
-	Prefix    []c13Ident `json:"prefix"`   // other identities using the server first
+	Prefix    []c13Ident `json:"prefix"`    // other identities using the server first
 	Cache0    bool       `json:"cache0"`
 	Exchange  bool       `json:"exchange"`
 }
